@@ -68,6 +68,9 @@ func (f *fatePlan) ruleMatches(i int, r *spec.DgramRule, d *simnet.Datagram, ci 
 	if r.Dir != int(d.Dir) {
 		return false
 	}
+	if r.Flow != "" && r.Flow != d.Flow {
+		return false
+	}
 	if r.Match == "" {
 		return r.Index == d.Index
 	}
